@@ -122,6 +122,9 @@ def main():
             {"name": "vkit", "path": "/verif/harness/vkit",
              "serves_properties": sorted(CHECKS.keys()),
              "kind_free_text": "home-grown choice-tape property-based testing engine (seeded generation, recorded draws, integrated tape shrinking, replay files), sharded over all cores; exhaustive phases enumerate tapes for small sub-spaces"},
+            {"name": "libfuzzer (cargo-fuzz 0.13.2, libfuzzer-sys 0.4)", "path": "/verif/fuzz",
+             "serves_properties": ["C03", "C07"],
+             "kind_free_text": "coverage-guided stage of the thorough tier of C03 and C07 (tools/fuzz_stage.sh): targets c03_frames / c07_views include the check modules by path and run the same case functions and oracles; bytes are decoded into the choice tape (Src::from_bytes), violations are written as ordinary tape replays; fixed -runs per job and -seed derived from VERIF_SEED"},
         ],
         "checks": checks,
         "notes": "Known findings: /verif/known_findings.json (open entries print KNOWN-FINDING; fixed entries are regression replays). VERIF_SEED selects the generator seed (default 1). Exit 2 = harness problem/inconclusive, never a violation.",
